@@ -14,6 +14,7 @@ import (
 	"bytes"
 	"encoding/json"
 	"fmt"
+	"runtime/debug"
 	"strconv"
 	"strings"
 	"sync/atomic"
@@ -27,16 +28,22 @@ import (
 	"verif/vfw"
 )
 
-func transcript(s *subject) string {
+func transcript(s *subject) string { var tb tbuf; return string(tb.of(s)) }
+
+// of writes the transcript of a subject into tb (valid until tb is used again).
+func (tb *tbuf) of(s *subject) []byte {
 	switch {
 	case s.msg != nil:
-		return MsgTranscript(s.msg, 0)
+		return tb.msg(s.msg, 0)
 	case s.s2 != nil:
-		return SECS2MsgTranscript(s.s2)
+		return tb.s2(s.s2)
 	default:
-		return ItemTranscript(s.item)
+		return tb.item(s.item)
 	}
 }
+
+// the two transcript buffers of the (sequential) alias part
+var tbA, tbB tbuf
 
 func bodyItem(s *subject) secs2.Item {
 	switch {
@@ -249,21 +256,21 @@ func runAlias(c *vfw.Ctx, sp spec, target string) {
 	}()
 	s := sp.mk()
 	act := target
-	var t0 string
+	var t0 []byte
 	if strings.HasPrefix(target, "pre:") {
 		// the mutation precedes the first observation of s: the expected transcript is
 		// that of an identical fresh subject
 		act = target[4:]
-		t0 = transcript(sp.mk())
+		t0 = tbA.of(sp.mk())
 	} else {
-		t0 = transcript(s)
+		t0 = tbA.of(s)
 	}
 	touched, err := apply(s, act)
 	if err != nil {
 		c.HarnessError("%s: %v", sp.id, err)
 		return
 	}
-	t1 := transcript(s)
+	t1 := tbB.of(s)
 	c.Case(touched > 0)
 	c.Add("elements_overwritten", int64(touched))
 	triv := "mutated"
@@ -271,14 +278,14 @@ func runAlias(c *vfw.Ctx, sp spec, target string) {
 		triv = "nothing-to-mutate"
 	}
 	c.Outcome(strings.SplitN(sp.typ, "/", 2)[0] + "|" + targetClass(target) + "|" + triv)
-	if t0 != t1 {
+	if !bytes.Equal(t0, t1) {
 		c.Violate("alias:"+sp.typ+":"+sp.prov+":"+target,
-			fmt.Sprintf("%s: after overwriting %s (%d elements) the transcript changed: %s", sp.id, target, touched, firstDiffWin(t0, t1)),
+			fmt.Sprintf("%s: after overwriting %s (%d elements) the transcript changed: %s", sp.id, target, touched, firstDiffWin(string(t0), string(t1))),
 			replayCase{"alias", sp.id, target})
 		return
 	}
 	if c.WantSample() && touched > 0 && sp.n >= 2 {
-		c.Sample(map[string]any{"subject": sp.id, "target": target, "elements_overwritten": touched, "transcript_bytes": len(t0), "transcript_hash": vfw.Hash(t0)})
+		c.Sample(map[string]any{"subject": sp.id, "target": target, "elements_overwritten": touched, "transcript_bytes": len(t0), "transcript_hash": vfw.Hash(string(t0))})
 	}
 }
 
@@ -316,7 +323,7 @@ type countingItem struct {
 }
 
 func (ci countingItem) AppendTo(dst []byte) []byte { ci.appends.Add(1); return ci.Item.AppendTo(dst) }
-func (ci countingItem) ToBytes() []byte          { ci.appends.Add(1); return ci.Item.ToBytes() }
+func (ci countingItem) ToBytes() []byte            { ci.appends.Add(1); return ci.Item.ToBytes() }
 
 type lazyCase struct {
 	k     kind
@@ -418,7 +425,7 @@ func runLazyEncode(c *vfw.Ctx, k kind, n int) {
 	if got := cnt.Load(); got > 1 && bad == "" {
 		bad = fmt.Sprintf("the body item was serialised %d times (%d at construction) for %d callers x 3 rounds x 3 serialisers", got, atCtor, len(sharers))
 	}
-	if want := e5.Encode(nil, naturalRef(k, n)); bad == "" && k.cls != "empty" && !bytes.Equal(ref, want) {
+	if bad == "" && k.cls != "empty" && !bytes.Equal(ref, e5.Encode(nil, naturalRef(k, n))) {
 		c.HarnessError("lazy-encode %s n=%d: body differs from reference encoding", k.name, n)
 	}
 	if bad != "" {
@@ -536,7 +543,7 @@ func partAlias(c *vfw.Ctx) {
 	c.Set("subjects", nspec)
 	for _, lc := range lazyCases(o) {
 		if c.Next() {
-			runLazyDecode(c, lc)
+			guard(c, "lazy-decode "+lc.id(), func() { runLazyDecode(c, lc) })
 		}
 	}
 	for _, n := range counts(o) {
@@ -545,13 +552,26 @@ func partAlias(c *vfw.Ctx) {
 				continue
 			}
 			if c.Next() {
-				runLazyEncode(c, k, n)
+				guard(c, fmt.Sprintf("lazy-encode %s/%d", k.name, n), func() { runLazyEncode(c, k, n) })
 			}
 		}
 	}
 }
 
+// guard turns a panic of the harness code itself into a harness error with a stack.
+func guard(c *vfw.Ctx, what string, f func()) {
+	defer func() {
+		if r := recover(); r != nil {
+			c.HarnessError("%s: panic: %v\n%s", what, r, debug.Stack())
+		}
+	}()
+	f()
+}
+
 func TestCheck(t *testing.T) {
+	// the harness allocates many short-lived transcripts/subjects and keeps almost nothing
+	// alive: collect less often (16 shard processes share the machine)
+	defer debug.SetGCPercent(debug.SetGCPercent(800))
 	vfw.Main(t, "C12", func(c *vfw.Ctx) {
 		partAlias(c)
 		// HOOK: the controlled-scheduler (E3) part — see sched_hook_test.go.
